@@ -11,8 +11,10 @@ rest of the reader (key lookups, coercions, header version / type gate from the 
 Full statement: `loads d = ok x → ∀ part ∈ parts x, ∀ r ∈ catalogue part.cls, r holds` for every format, plus header and
 required-key rejections.  Proved for all seven formats: rpms/modules/extra_files (header + compose, as the quantifier says), images (every image of
 every cell), discinfo, composeinfo and treeinfo (every section, every variant of the rebuilt forest at any depth;
-`Model/LoadsForest.lean`).  The readers that a version gate selects for documents older than 1.0 (composeinfo) / 0.4 (treeinfo) are
-not modelled (C05): there the model answers `Err.other`, so the theorems say nothing about such documents.
+`Model/LoadsForest.lean`).  The models are total over header versions: the readers a generated version gate selects for documents
+older than 0.3 / 0.4 / 1.0 / 1.1 / 1.2 (and for a treeinfo without a header) are part of `fill` (built from C05's models of the
+legacy-specific steps), and `checks` are the same `validate()` calls, because every class validates AFTER dispatching on the gate
+(`C07_legacy_dispatch`).  `C07_sound_*_all_versions` state the soundness for a document of any version (section "every version").
 -/
 namespace PM
 open PM.Val PM.Val.Loads
@@ -163,8 +165,7 @@ theorem C07_sound_composeinfo_front (d : PyVal) (f : CIFront) (h : ciFrontLoads 
       simp only [hbp, List.mem_cons, List.not_mem_nil, or_false] at hb
       subst hb; simp
 
-/-- composeinfo (documents of format 1.0 and later; the readers the version gates select for older documents are C05's and
-answer `Err.other` here, never `ok`): every section and EVERY variant of the rebuilt forest, at any depth, and the release of
+/-- composeinfo (every format version): every section and EVERY variant of the rebuilt forest, at any depth, and the release of
 every layered product satisfy the catalogue.  The forest is the one `ciFill` rebuilds from the document by following the
 `"%s-%s" % (uid, child)` references; the validate() calls are those of `Variant.deserialize` (last statement) and
 `VariantBase.add` (on its argument) per the generated flags. -/
@@ -194,8 +195,7 @@ theorem C07_sound_composeinfo (d : PyVal) (m : ComposeInfoM) (h : ciLoads d = .o
         subst hpe; simp [hl]
       · simp [hl] at hpe
 
-/-- treeinfo (documents newer than 0.3; older ones and files without a header are read by the legacy readers, C05's, and answer
-`Err.other` here): every section — present or not — and every variant at any depth satisfy the catalogue -/
+/-- treeinfo (every format version and files without a header): every section — present or not — and every variant at any depth satisfy the catalogue -/
 theorem C07_sound_treeinfo (d : PyVal) (m : TreeInfoM) (h : tiLoads d = .ok m) : ∀ p ∈ tiLoadedParts m, p.Conforms := by
   intro p hp
   refine conforms_of_steps _ (loadsWith_ok _ _ d m h).2 p ?_
@@ -340,31 +340,205 @@ theorem C07_required_payload (cls : String) (expected table : Str) (doc : PyVal)
     (h1 : headerFill expected doc = .ok hv) (h2 : getItem doc c!"payload" = .error e) :
     ∀ m, simpleFill cls expected table none doc ≠ .ok m := by
   intro m hm
-  simp [simpleFill, h1, h2, bind, Except.bind] at hm
+  simp [simpleFill, h1, h2, bind, Except.bind, pure, Except.pure] at hm
 
 theorem C07_required_compose (vt : Nat × Nat) (payload : PyVal) (e : Err) (h : getItem payload c!"compose" = .error e) :
     ∀ o, composeFill vt payload ≠ .ok o := by
   intro o ho
   unfold composeFill at ho
-  cases hn : notLegacy Gen.gate_composeinfo_Compose_deserialize_0 vt <;> simp [hn, h, bind, Except.bind] at ho
+  cases hn : gateB Gen.gate_composeinfo_Compose_deserialize_0 vt <;> simp [hn, h, bind, Except.bind] at ho
 
+/-- `id` and `type` are required in every format version; `date` and `respin` from 0.3 on (below, `deserialize_0_3` decodes them
+from the id and never looks at the keys: `C07_compose_0_2_no_date_witness`) -/
 theorem C07_required_compose_key (vt : Nat × Nat) (payload sec : PyVal) (k : Str) (e : Err)
-    (hk : k = c!"id" ∨ k = c!"type" ∨ k = c!"date" ∨ k = c!"respin")
+    (hk : k = c!"id" ∨ k = c!"type" ∨ ((k = c!"date" ∨ k = c!"respin") ∧ Gen.gate_composeinfo_Compose_deserialize_0.eval? vt = some false))
     (h1 : getItem payload c!"compose" = .ok sec) (h2 : getItem sec k = .error e) :
     ∀ o, composeFill vt payload ≠ .ok o := by
   intro o ho
-  unfold composeFill at ho
-  cases hn : notLegacy Gen.gate_composeinfo_Compose_deserialize_0 vt <;>
+  unfold composeFill gateB at ho
+  cases hg : Gen.gate_composeinfo_Compose_deserialize_0.eval? vt with
+  | none => simp [hg, bind, Except.bind] at ho
+  | some b =>
     cases ha : getItem sec c!"id" <;> cases hb : getD sec c!"label" .none <;> cases hc : getItem sec c!"type" <;>
-    cases hd : getItem sec c!"date" <;> cases he : getItem sec c!"respin" <;>
-    rcases hk with rfl | rfl | rfl | rfl <;> simp_all [bind, Except.bind]
+    cases hd : getItem sec c!"date" <;> cases he : getItem sec c!"respin" <;> cases b <;>
+    rcases hk with rfl | rfl | ⟨rfl | rfl, hf⟩ <;> simp_all [bind, Except.bind]
 
 /-- the payload table (`rpms` / `modules` / `extra_files`) is required -/
 theorem C07_required_table (cls : String) (expected table : Str) (doc payload : PyVal) (hv : Obj × (Nat × Nat)) (c : Obj) (e : Err)
     (h1 : headerFill expected doc = .ok hv) (h2 : getItem doc c!"payload" = .ok payload) (h3 : composeFill hv.2 payload = .ok c)
     (h4 : getItem payload table = .error e) : ∀ m, simpleFill cls expected table none doc ≠ .ok m := by
   intro m hm
-  simp [simpleFill, h1, h2, h3, h4, bind, Except.bind] at hm
+  simp [simpleFill, h1, h2, h3, h4, bind, Except.bind, pure, Except.pure] at hm
+
+
+/-! ## every version: the readers selected by the version gates for older documents -/
+
+/-- GENERATED OBLIGATION: every legacy reader is reached only through its class's dispatcher, under the generated gate, and the
+dispatcher's `self.validate()` comes after the dispatch, unguarded, for BOTH branches (moving it into the `else:` branch, or returning
+from the legacy branch, changes this list).  rpms `deserialize_0_3` files every entry through `self.add` (the refusals of `add` are
+what rejects a bad 0.3 manifest); images `_add_1_1` files through `self.add` on both of its branches. -/
+theorem C07_legacy_dispatch :
+    callSeq Gen.struct_composeinfo_Compose_deserialize
+      = [("call", "self.deserialize_0_3", ["gate:gate_composeinfo_Compose_deserialize_0"]),
+         ("call", "self.deserialize_1_0", ["notgate:gate_composeinfo_Compose_deserialize_0"]), ("validate", "self", [])]
+    ∧ callSeq Gen.struct_composeinfo_Release_deserialize
+      = [("call", "self.deserialize_0_3", ["gate:gate_composeinfo_Release_deserialize_0"]),
+         ("call", "self.deserialize_1_0", ["notgate:gate_composeinfo_Release_deserialize_0"]), ("validate", "self", [])]
+    ∧ callSeq Gen.struct_rpms_Rpms_deserialize
+      = [("call", "self.header.deserialize", []), ("call", "self.deserialize_0_3", ["gate:gate_rpms_Rpms_deserialize_0"]),
+         ("call", "self.deserialize_1_0", ["notgate:gate_rpms_Rpms_deserialize_0"]), ("validate", "self", []),
+         ("call", "self.header.set_current_version", [])] := by
+  decide +kernel
+
+theorem C07_legacy_dispatch_add :
+    (callSeq Gen.struct_rpms_Rpms_deserialize_0_3).map (·.2.1) = ["self.compose.deserialize", "self.add", "self.add"]
+    ∧ (callSeq Gen.struct_images_Images__add_1_1).map (fun e => (e.2.1, e.2.2))
+      = [("self.add", ["ifeq:arch=src", "for:data['payload']['images'][variant]"]), ("self.add", ["ifne:arch=src"])] := by
+  decide +kernel
+
+theorem C07_legacy_dispatch_treeinfo :
+    callSeq Gen.struct_treeinfo_Release_deserialize
+      = [("call", "self.deserialize_0_0", ["gate:gate_treeinfo_Release_deserialize_0"]),
+         ("call", "self.deserialize_0_3", ["notgate:gate_treeinfo_Release_deserialize_0", "gate:gate_treeinfo_Release_deserialize_1"]),
+         ("call", "self.deserialize_1_0", ["notgate:gate_treeinfo_Release_deserialize_0", "notgate:gate_treeinfo_Release_deserialize_1"]),
+         ("validate", "self", [])]
+    ∧ callSeq Gen.struct_treeinfo_Tree_deserialize
+      = [("call", "self.deserialize_0_0", ["gate:gate_treeinfo_Tree_deserialize_0"]),
+         ("call", "self.deserialize_1_0", ["notgate:gate_treeinfo_Tree_deserialize_0"]), ("validate", "self", [])]
+    ∧ callSeq Gen.struct_treeinfo_Media_deserialize
+      = [("call", "self.deserialize_0_0", ["gate:gate_treeinfo_Media_deserialize_0"]),
+         ("call", "self.deserialize_1_0", ["notgate:gate_treeinfo_Media_deserialize_0"]), ("validate", "self", [])]
+    ∧ callSeq Gen.struct_treeinfo_VariantPaths_deserialize
+      = [("call", "self.deserialize_0_0", ["gate:gate_treeinfo_VariantPaths_deserialize_0"]),
+         ("call", "self.deserialize_0_3", ["notgate:gate_treeinfo_VariantPaths_deserialize_0", "gate:gate_treeinfo_VariantPaths_deserialize_1"]),
+         ("call", "self.deserialize_1_0", ["notgate:gate_treeinfo_VariantPaths_deserialize_0", "notgate:gate_treeinfo_VariantPaths_deserialize_1"]),
+         ("validate", "self", [])]
+    ∧ (callSeq Gen.struct_treeinfo_Variants_deserialize).map (fun e => (e.2.1, e.2.2))
+      = [("self.deserialize_0_0", ["gate:gate_treeinfo_Variants_deserialize_0"]), ("self.deserialize_1_0", ["notgate:gate_treeinfo_Variants_deserialize_0"]),
+         ("variant.deserialize", ["for:variant_ids"]), ("self.add", ["for:variant_ids"]), ("self", [])]
+    ∧ (callSeq Gen.struct_treeinfo_Variant_deserialize).map (fun e => (e.2.1, e.2.2))
+      = [("self.deserialize_0_0", ["gate:gate_treeinfo_Variant_deserialize_1"]),
+         ("self.deserialize_0_3", ["notgate:gate_treeinfo_Variant_deserialize_1", "gate:gate_treeinfo_Variant_deserialize_2"]),
+         ("self.deserialize_1_0", ["notgate:gate_treeinfo_Variant_deserialize_1", "notgate:gate_treeinfo_Variant_deserialize_2"]),
+         ("self.paths.deserialize", [])] := by
+  decide +kernel
+
+/-- no generated gate is a comparison the translator could not read: the models never leave a version undecided -/
+theorem C07_gates_recognised : Gen.allGates.all (fun g => g.2.op != .unknown) = true := by decide +kernel
+
+theorem gateB_total (g : Gate) (h : (g.op != .unknown) = true) (vt : Nat × Nat) : ∃ b, gateB g vt = .ok b := by
+  unfold gateB Gate.eval?
+  cases hop : g.op <;> simp_all
+
+/-- for EVERY version each gate the JSON readers consult has a verdict -/
+theorem C07_gates_total (vt : Nat × Nat) :
+    (∃ b, gateB Gen.gate_composeinfo_Compose_deserialize_0 vt = .ok b) ∧ (∃ b, gateB Gen.gate_composeinfo_Release_deserialize_0 vt = .ok b)
+    ∧ (∃ b, gateB Gen.gate_composeinfo_Variants_deserialize_0 vt = .ok b) ∧ (∃ b, gateB Gen.gate_composeinfo_Variant_deserialize_0 vt = .ok b)
+    ∧ (∃ b, gateB Gen.gate_rpms_Rpms_deserialize_0 vt = .ok b) ∧ (∃ b, gateB Gen.gate_images_Images_deserialize_0 vt = .ok b)
+    ∧ (∃ b, gateB Gen.gate_images_Image_deserialize_0 vt = .ok b) ∧ (∃ b, gateB Gen.gate_images_Images_add_0 vt = .ok b) := by
+  refine ⟨gateB_total _ ?_ vt, gateB_total _ ?_ vt, gateB_total _ ?_ vt, gateB_total _ ?_ vt, gateB_total _ ?_ vt, gateB_total _ ?_ vt,
+    gateB_total _ ?_ vt, gateB_total _ ?_ vt⟩ <;> decide
+
+/-- … and the treeinfo selection (C05's `selsOf` of the eleven treeinfo gates) is defined for every version -/
+theorem C07_ti_gates_total (vt : Nat × Nat) : ∃ b, tiIsLegacy vt = .ok b := by
+  have h : ∀ g : Gate, (g.op != .unknown) = true → ∃ b, TI.Legacy.gateB g vt = .ok b := by
+    intro g hg
+    unfold TI.Legacy.gateB Gate.eval?
+    cases hop : g.op <;> simp_all
+  obtain ⟨b1, h1⟩ := h Gen.gate_treeinfo_Header_deserialize_0 (by decide)
+  obtain ⟨b2, h2⟩ := h Gen.gate_treeinfo_Release_deserialize_0 (by decide)
+  obtain ⟨b3, h3⟩ := h Gen.gate_treeinfo_Release_deserialize_1 (by decide)
+  obtain ⟨b4, h4⟩ := h Gen.gate_treeinfo_Tree_deserialize_0 (by decide)
+  obtain ⟨b5, h5⟩ := h Gen.gate_treeinfo_Variants_deserialize_0 (by decide)
+  obtain ⟨b6, h6⟩ := h Gen.gate_treeinfo_VariantPaths_deserialize_0 (by decide)
+  obtain ⟨b7, h7⟩ := h Gen.gate_treeinfo_VariantPaths_deserialize_1 (by decide)
+  obtain ⟨b8, h8⟩ := h Gen.gate_treeinfo_Variant_deserialize_0 (by decide)
+  obtain ⟨b9, h9⟩ := h Gen.gate_treeinfo_Variant_deserialize_1 (by decide)
+  obtain ⟨b10, h10⟩ := h Gen.gate_treeinfo_Variant_deserialize_2 (by decide)
+  obtain ⟨b11, h11⟩ := h Gen.gate_treeinfo_Images__fix_path_0 (by decide)
+  obtain ⟨b12, h12⟩ := h Gen.gate_treeinfo_Stage2__fix_path_0 (by decide)
+  obtain ⟨b13, h13⟩ := h Gen.gate_treeinfo_Checksums__fix_path_0 (by decide)
+  obtain ⟨b14, h14⟩ := h Gen.gate_treeinfo_Media_deserialize_0 (by decide)
+  unfold tiIsLegacy TI.Legacy.selsOf TI.Legacy.sel2
+  simp only [h1, h2, h3, h4, h5, h6, h7, h8, h9, h10, h11, h12, h13, h14, bind, Except.bind, pure, Except.pure]
+  cases b2 <;> cases b3 <;> cases b6 <;> cases b7 <;> cases b9 <;> cases b10 <;> exact ⟨_, rfl⟩
+
+/-- C07, composeinfo, ANY format version: whatever a successful load returns — also through `Compose.deserialize_0_3` (< 0.3),
+`Release.deserialize_0_3` (≤ 0.3, also for the release of a layered-product variant) and the prefix-derived variant table (< 1.0) —
+every section, every variant of the forest at any depth and every layered product's release satisfy the rules writing enforces -/
+theorem C07_sound_composeinfo_all_versions (d : PyVal) (m : ComposeInfoM) (h : ciLoads d = .ok m) : ∀ p ∈ ciLoadedParts m, p.Conforms :=
+  C07_sound_composeinfo d m h
+
+/-- C07, images, any format version (`Compose.deserialize_0_3` below 0.3, optional subvariant at ≤ 1.0, `_add_1_1` at ≤ 1.1) -/
+theorem C07_sound_images_all_versions (d : PyVal) (m : ImagesM) (h : imagesLoads d = .ok m) : ∀ p ∈ imagesLoadedParts m, p.Conforms :=
+  C07_sound_images d m h
+
+/-- C07, rpms, any format version: header and compose section conform (the quantifier of C07 for rpms), and a manifest of format
+≤ 0.3 was accepted entry by entry by `Rpms.add` (C05/C12's model: known binary arch, supported category, relative non-empty path,
+well-formed NEVRAs, category/arch agreement) -/
+theorem C07_sound_rpms_all_versions (d : PyVal) (m : SimpleM) (h : rpmsLoads d = .ok m) :
+    (∀ p ∈ simpleLoadedParts m, p.Conforms)
+    ∧ ∃ hv payload, headerFill Gen.HEADER_TYPE_Rpms d = .ok hv ∧ getItem d c!"payload" = .ok payload
+        ∧ (Gen.gate_rpms_Rpms_deserialize_0.eval? hv.2 = some true → ∃ s, Mf.manifest03 payload = .ok s) := by
+  refine ⟨C07_sound_rpms d m h, ?_⟩
+  have hf := (loadsWith_ok _ _ d m h).1
+  unfold simpleFill at hf
+  cases h1 : headerFill Gen.HEADER_TYPE_Rpms d with
+  | error e => simp [h1, bind, Except.bind] at hf
+  | ok hv =>
+    cases h2 : getItem d c!"payload" with
+    | error e =>
+      simp only [h1, h2, bind, Except.bind] at hf
+      cases hg : gateB Gen.gate_rpms_Rpms_deserialize_0 hv.2 <;> simp [hg] at hf
+    | ok payload =>
+      refine ⟨hv, payload, rfl, rfl, ?_⟩
+      intro hgt
+      have hg : gateB Gen.gate_rpms_Rpms_deserialize_0 hv.2 = .ok true := by simp [gateB, hgt]
+      simp only [h1, h2, hg, bind, Except.bind] at hf
+      cases h3 : composeFill hv.2 payload with
+      | error e => simp [h3] at hf
+      | ok c =>
+        simp only [h3] at hf
+        cases h4 : Mf.manifest03 payload with
+        | error e => simp [h4] at hf
+        | ok s => exact ⟨s, rfl⟩
+
+/-- C07, treeinfo, any format version and files without `[header]` (C05's reader of the pre-productmd layout, the `[product]`
+reader of ≤ 0.3): every section — present or not — and every variant at any depth conform -/
+theorem C07_sound_treeinfo_all_versions (d : PyVal) (m : TreeInfoM) (h : tiLoads d = .ok m) : ∀ p ∈ tiLoadedParts m, p.Conforms :=
+  C07_sound_treeinfo d m h
+
+/-- what `Compose.deserialize_0_3` does: below the generated gate the date, type and respin of the loaded compose are the ones
+decoded from the id (`get_date_type_respin`), whatever the section says -/
+theorem C07_compose_legacy_decoded (vt : Nat × Nat) (payload sec id : PyVal) (o : Obj)
+    (hg : Gen.gate_composeinfo_Compose_deserialize_0.eval? vt = some true)
+    (h1 : getItem payload c!"compose" = .ok sec) (h2 : getItem sec c!"id" = .ok id) (h : composeFill vt payload = .ok o) :
+    ∃ dtr, Mf.dateTypeRespinOf id = .ok dtr ∧ o.get c!"date" = dtr.1 ∧ o.get c!"type" = dtr.2.1 ∧ o.get c!"respin" = dtr.2.2 := by
+  unfold composeFill at h
+  have hgb : gateB Gen.gate_composeinfo_Compose_deserialize_0 vt = .ok true := by simp [gateB, hg]
+  simp only [hgb, h1, h2, bind, Except.bind] at h
+  cases h3 : getD sec c!"label" .none with
+  | error e => simp [h3] at h
+  | ok l =>
+    cases h4 : getItem sec c!"type" with
+    | error e => simp [h3, h4] at h
+    | ok t =>
+      cases h5 : Mf.dateTypeRespinOf id with
+      | error e => simp [h3, h4, h5] at h
+      | ok dtr =>
+        cases h6 : getD sec c!"final" (.bool false) with
+        | error e => simp [h3, h4, h5, h6] at h
+        | ok f =>
+          simp only [h3, h4, h5, h6, if_true, Except.ok.injEq] at h
+          subst h
+          exact ⟨dtr, rfl, rfl, rfl, rfl⟩
+
+/-- at ≤ 0.3 the release is read from `product`: a document that has only a `release` section is refused -/
+theorem C07_required_product (vt : Nat × Nat) (data : PyVal) (e : Err)
+    (hg : Gen.gate_composeinfo_Release_deserialize_0.eval? vt = some true) (h : getItem data c!"product" = .error e) :
+    ∀ o, ciReleaseFill vt data ≠ .ok o := by
+  intro o ho
+  simp [ciReleaseFill, gateB, hg, h, bind, Except.bind] at ho
 
 /-! ## non-vacuity -/
 
@@ -399,5 +573,89 @@ example : isOk (ciLoads (exCIDoc [c!"x86_64"] [c!"optional"])) = true
     ∧ (match ciLoads (exCIDoc [c!"x86_64"] [c!"optional"]) with | .ok m => m.variants.length == 1 && (m.variants.map (·.kids.length)) == [1] | _ => false) = true
     ∧ isOk (ciLoads (exCIDoc [c!"sparc"] [c!"optional"])) = false
     ∧ isOk (ciLoads (exCIDoc [c!"x86_64"] [c!"optional", c!"ghost"])) = false := by decide +kernel
+
+
+/-! ### documents of older formats -/
+
+def exOldCompose (id : Str) : PyVal := .dict [(c!"id", .str id), (c!"type", .str c!"whatever")]
+def exOldVar (id uid : Str) (arches : List Str) : PyVal :=
+  .dict [(c!"id", .str id), (c!"uid", .str uid), (c!"name", .str c!"n"), (c!"type", .str c!"variant"),
+         (c!"arches", .list (arches.map .str)), (c!"paths", .dict [])]
+/-- a composeinfo document in the layout of formats below 0.3: no header type, compose without date / respin (its `type` is there but
+ignored), the release under `relKey`, variants related by UID prefix only -/
+def exCIOld (ver : String) (relKey id : Str) (childArches : List Str) : PyVal :=
+  .dict [(c!"header", .dict [(c!"version", .str ver.toList)]),
+         (c!"payload", .dict [(c!"compose", exOldCompose id),
+                              (relKey, .dict [(c!"name", .str c!"F"), (c!"short", .str c!"F"), (c!"version", .str c!"1")]),
+                              (c!"variants", .dict [(c!"Server", exOldVar c!"Server" c!"Server" [c!"x86_64"]),
+                                                    (c!"Server-optional", exOldVar c!"optional" c!"Server-optional" childArches)])])]
+
+/-- C07 on a 0.2 composeinfo (witnesses, kernel-evaluated): the document loads, the forest is rebuilt from the UID prefixes (one
+top-level variant with one child), date and respin are the ones inside the id; the same document is REFUSED when the child has an arch
+its parent lacks, when the release sits under `release` instead of `product`, when the id carries no date, and at 0.4 (where
+`date` / `respin` are required keys) -/
+theorem C07_composeinfo_0_2_witness :
+    (match ciLoads (exCIOld "0.2" c!"product" c!"F-1-20200101.n.3" [c!"x86_64"]) with
+      | .ok m => m.variants.map (fun v => (CIVar.kids v).length) == [1] && PyVal.pyEq (m.compose.get c!"date") (PyVal.str c!"20200101")
+                  && PyVal.pyEq (m.compose.get c!"respin") (PyVal.int 3) && PyVal.pyEq (m.compose.get c!"type") (PyVal.str c!"nightly")
+      | .error _ => false) = true
+    ∧ isOk (ciLoads (exCIOld "0.2" c!"product" c!"F-1-20200101.n.3" [c!"sparc"])) = false
+    ∧ isOk (ciLoads (exCIOld "0.2" c!"release" c!"F-1-20200101.n.3" [c!"x86_64"])) = false
+    ∧ isOk (ciLoads (exCIOld "0.2" c!"product" c!"F-1" [c!"x86_64"])) = false
+    ∧ isOk (ciLoads (exCIOld "0.4" c!"release" c!"F-1-20200101.n.3" [c!"x86_64"])) = false := by decide +kernel
+
+def exRpms03 (cat : Str) : PyVal :=
+  .dict [(c!"header", .dict [(c!"version", .str c!"0.3")]),
+         (c!"payload", .dict [(c!"compose", .dict [(c!"id", .str c!"F-1-20200101.n.0"), (c!"date", .str c!"20200101"), (c!"type", .str c!"nightly"), (c!"respin", .int 0)]),
+            (c!"manifest", .dict [(c!"Server", .dict [(c!"x86_64", .dict [(c!"bash-0:4.3-1.src", .dict [(c!"bash-0:4.3-1.x86_64",
+               .dict [(c!"path", .str c!"Server/b.rpm"), (c!"sigkey", .none), (c!"type", .str cat)])])])])])])]
+
+/-- a 0.3 rpms manifest loads with the documented category `package`, and is refused with a category `Rpms.add` does not know -/
+theorem C07_rpms_0_3_witness : isOk (rpmsLoads (exRpms03 c!"package")) = true ∧ isOk (rpmsLoads (exRpms03 c!"floppy")) = false := by
+  decide +kernel
+
+def exTI00 (arch : Str) : PyVal :=
+  .dict [(c!"general", .dict [(c!"arch", .str arch), (c!"family", .str c!"Fedora"), (c!"version", .str c!"20"), (c!"variant", .str c!"Server")])]
+def exTI03 (sec : Str) : PyVal :=
+  .dict [(c!"header", .dict [(c!"version", .str c!"0.3")]),
+         (sec, .dict [(c!"name", .str c!"Fedora"), (c!"short", .str c!"F"), (c!"version", .str c!"20")]),
+         (c!"tree", .dict [(c!"arch", .str c!"x86_64"), (c!"build_timestamp", .str c!"1400000000"), (c!"platforms", .str c!"x86_64"), (c!"variants", .str c!"Server")]),
+         (c!"variant-Server", .dict [(c!"id", .str c!"Server"), (c!"uid", .str c!"Server"), (c!"name", .str c!"Server"), (c!"type", .str c!"variant")])]
+
+/-- a treeinfo without `[header]` is read as 0.0 from `[general]` (one variant, no timestamp: -1) and refused with a blank arch; a
+0.3 treeinfo loads with `[product]` and is refused with `[release]` -/
+theorem C07_treeinfo_legacy_witness :
+    (match tiLoads (exTI00 c!"x86_64") with
+      | .ok m => PyVal.pyEq (m.header.get c!"version") (PyVal.str c!"0.0") && m.variants.length == 1
+                  && PyVal.pyEq (m.tree.get c!"build_timestamp") (PyVal.int (-1))
+      | .error _ => false) = true
+    ∧ isOk (tiLoads (exTI00 c!"")) = false
+    ∧ isOk (tiLoads (exTI03 c!"product")) = true ∧ isOk (tiLoads (exTI03 c!"release")) = false := by decide +kernel
+
+
+/-! ### child lists that form a cycle -/
+
+def exCycDoc (vs : List (Str × PyVal)) : PyVal :=
+  .dict [(c!"header", .dict [(c!"version", .str c!"1.2"), (c!"type", .str c!"productmd.composeinfo")]),
+         (c!"payload", .dict [(c!"compose", .dict [(c!"id", .str c!"F-1-20200101.n.0"), (c!"date", .str c!"20200101"), (c!"type", .str c!"nightly"),
+                                                   (c!"respin", .int 0)]),
+                              (c!"release", .dict [(c!"name", .str c!"F"), (c!"short", .str c!"F"), (c!"version", .str c!"1"), (c!"type", .str c!"ga")]),
+                              (c!"variants", .dict vs)])]
+
+def isRecursion : Except Err ComposeInfoM → Bool | .error .runtimeError => true | _ => false
+
+/-- a child-list cycle that is reachable from a top-level variant never ends (every reference builds a fresh `Variant`, so the
+identity test "Dependency cycle detected" of `VariantBase.add` cannot fire on load): RecursionError — a self-loop and a 2-cycle
+below `T`.  A cycle none of whose members is a top-level variant is never read: the document loads with no variants at all. -/
+theorem C07_cycle_witness :
+    isRecursion (ciLoads (exCycDoc [(c!"T", exVarDoc c!"T" c!"T" [c!"x86_64"] (some [c!"x"])),
+                                    (c!"T-x", exVarDoc c!"x" c!"T" [c!"x86_64"] (some [c!"x"]))])) = true
+    ∧ isRecursion (ciLoads (exCycDoc [(c!"T", exVarDoc c!"T" c!"T" [c!"x86_64"] (some [c!"x"])),
+                                      (c!"T-x", exVarDoc c!"x" c!"T-x" [c!"x86_64"] (some [c!"y"])),
+                                      (c!"T-x-y", exVarDoc c!"y" c!"T" [c!"x86_64"] (some [c!"x"]))])) = true
+    ∧ (match ciLoads (exCycDoc [(c!"P-Q", exVarDoc c!"Q" c!"P-Q" [c!"x86_64"] (some [c!"R"])),
+                                (c!"P-Q-R", exVarDoc c!"R" c!"P" [c!"x86_64"] (some [c!"Q"]))]) with
+        | .ok m => m.variants.isEmpty
+        | .error _ => false) = true := by decide +kernel
 
 end PM
